@@ -1,6 +1,7 @@
 //! Replay searcher: bounded enumeration of concrete inputs through the PUBLIC API of the real crate
 //! (path dependency on /repo), one mode per mechanism.  It never decides anything: the verifier does.
 //! Output: one line `FOUND <json>` for the first failing input, or `NONE <cases>`.
+mod bounded;
 use html2text::config;
 use html2text::render::RichAnnotation;
 use std::panic;
@@ -417,6 +418,10 @@ fn main() {
     let mode = std::env::args().nth(1).unwrap_or_default();
     panic::set_hook(Box::new(|_| {}));
     match mode.as_str() {
+        "bnd_c08" => bounded::bnd_c08(),
+        "bnd_c13" => bounded::bnd_c13(),
+        "bnd_c18" => bounded::bnd_c18(),
+        "bnd_c09" => bounded::bnd_c09(),
         "c19" => c19(),
         "c19_inherit" => c19_inherit(),
         "dbg" => dbg(),
